@@ -809,10 +809,19 @@ func (e *Exec) step(t []string) {
 		case "search":
 			s = db.Search(e.of(), fieldName(fld), op, val)
 		case "and":
-			s = old.s.And(fieldName(fld), op, val)
+			// (one time out of three through Search.Operation and one of its spellings)
+			if e.rng.Intn(3) == 0 {
+				s = old.s.Operation([]string{"and", "&&", "AND", "And"}[e.rng.Intn(4)], fieldName(fld), op, val)
+			} else {
+				s = old.s.And(fieldName(fld), op, val)
+			}
 			det = det && old.det
 		case "or":
-			s = old.s.Or(fieldName(fld), op, val)
+			if e.rng.Intn(3) == 0 {
+				s = old.s.Operation([]string{"or", "||", "OR", "Or"}[e.rng.Intn(4)], fieldName(fld), op, val)
+			} else {
+				s = old.s.Or(fieldName(fld), op, val)
+			}
 			det = det && old.det
 		}
 		e.searches[sid] = &srch{s: s, det: det}
@@ -834,7 +843,15 @@ func (e *Exec) step(t []string) {
 		if t[0] == "one" {
 			mode, _ = strconv.Atoi(t[2])
 			var o sod.Object
-			o, err = s.s.One()
+			if e.rng.Intn(3) == 0 {
+				o = e.typ.mk() // (the target must hold an Object: documented)
+				err = s.s.AssignOne(&o)
+				if err != nil {
+					o = nil
+				}
+			} else {
+				o, err = s.s.One()
+			}
 			if err == nil {
 				objs = []sod.Object{o}
 			}
@@ -848,7 +865,11 @@ func (e *Exec) step(t []string) {
 				s.rev = true
 			}
 			mode, _ = strconv.Atoi(t[4])
-			objs, err = s.s.Collect()
+			if e.rng.Intn(3) == 0 {
+				err = s.s.Assign(&objs)
+			} else {
+				objs, err = s.s.Collect()
+			}
 		}
 		fls := make([]Flat, 0, len(objs))
 		for _, o := range objs {
